@@ -177,10 +177,51 @@ def r174(ctx, fx):
         ctx.fail_closed(rid, "expected 5 chunk arms, found %d" % len(m["arms"]))
 
 
+def r175(ctx, fx):
+    rid = ctx.rule("R17.5", "positions of formatting edits count UTF-16 code units throughout: label CHARCOL (the `column` of a code-map LineCol, which counts "
+                   "characters) must not be stored into lsp_types::Position.character inside the formatting module — added to a UTF-16 count it puts every edit "
+                   "behind a character outside the BMP one unit too far left")
+    T = taint.Taint(fx, "CHARCOL", source_fields=(("code_map::LineCol", "column"),), carrier=LEN_CARRIER,
+                    kill=tuple(k for k in taint.DEFAULT_KILL if k != "::len" and k != "::count") + ("::is_empty",))
+    n = 0
+    seen = {}
+    for f in sorted(fx.all_fns("mos"), key=lambda f: f.path):
+        if "::tests::" in f.path or not f.path.lstrip("<").startswith("mos::lsp::formatting"):
+            continue
+        for bi, si, st in lib.stmts(f):
+            if st["k"] != "assign":
+                continue
+            rv = st["rv"]
+            hits = []
+            if rv["k"] == "agg" and rv.get("adt") == "lsp_types::Position":
+                for i, op in enumerate(rv["ops"]):
+                    fld = rv["fields"][i] if i < len(rv.get("fields", [])) else str(i)
+                    if fld == "character":
+                        n += 1
+                        if T.op_tainted(f.id, op):
+                            hits.append(op)
+            for e in (st["dst"].get("p") or []):
+                if isinstance(e, dict) and e.get("of") == "lsp_types::Position" and e.get("n") == "character":
+                    n += 1
+                    srcop = rv.get("op") if rv["k"] in ("use", "cast") else None
+                    if srcop is not None and T.op_tainted(f.id, srcop):
+                        hits.append(srcop)
+            for op in hits:
+                seen[f.path] = seen.get(f.path, 0) + 1
+                key = "%s|Position.character#%d" % (f.path, seen[f.path])
+                ctx.inst(rid, key, sample={"fn": f.path, "line": st.get("line")})
+                ctx.finding(rid, key, "%s puts a column that counts characters (code-map LineCol) into the `character` of an edit position, which counts UTF-16 code "
+                            "units: an emoji in front of the first difference shifts the edits of that line" % f.path, "%s:%s" % (f.file, st.get("line")))
+    ctx.inst(rid, "scan", sample={"position_character_stores_examined": n})
+    if n < 2:
+        ctx.fail_closed(rid, "fewer than 2 constructions of Position.character found in the formatting module (%d)" % n)
+
+
 def run(ctx):
     fx = ctx.facts
     r171(ctx, fx)
     r172_173(ctx, fx)
     r174(ctx, fx)
+    r175(ctx, fx)
     ctx.not_decided("that applying the edits yields exactly the formatted text on concrete buffers; overlap/ordering of edits on concrete diffs; UTF-16 vs code-point "
                     "counting for characters outside the BMP")
